@@ -99,6 +99,158 @@ NEAR = _near_pool()
 NEAR_SET = set(x for v in NEAR.values() for x in v)
 
 
+# Adversarial targets: spellings DERIVED from the reviewed special spellings and the keywords themselves.  None of
+# them is special to the tool (by the reviewed reader table), so renaming a name to one of them must not change a
+# diagnostic; a rule that tests `value in "environ"`, `value.startswith("defin")`, `"if" in value` ... instead of
+# equality makes exactly these names special.
+ADV_KINDS = ("substring", "extension by one character", "case variant")
+
+
+def _admissible_target(v):
+    return is_name(v) and v not in keywords and not is_special(v)
+
+
+def _case_variants(v):
+    out = [v.upper(), v.capitalize(), v[:-1] + v[-1:].upper()]
+    j = next((i for i, c in enumerate(v) if c in LOWER), None)
+    if j is not None:
+        out.append(v[:j] + v[j].upper() + v[j + 1:])
+    return [x for x in out if x != v]
+
+
+def derived_targets(k):
+    """k: a reviewed special spelling or a keyword -> {kind: sorted admissible spellings derived from k}:
+    every contiguous proper substring, every extension by one identifier character in front or behind, the case
+    variants (all capitals, first capital, last capital, first letter capital) of k, of its substrings and the
+    all-capitals variant of its extensions.  Inadmissible ones (keywords, special spellings in any case, non-names)
+    are dropped: those are excluded by the property itself."""
+    subs = set(k[i:j] for i in range(len(k)) for j in range(i + 1, len(k) + 1)) - {k}
+    exts = set(c + k for c in IDCHARS) | set(k + c for c in IDCHARS)
+    case = set(_case_variants(k))
+    for v in subs:
+        case.update(_case_variants(v))
+    for v in exts:
+        case.add(v.upper())
+    case -= subs | exts
+    return {"substring": sorted(filter(_admissible_target, subs)),
+            "extension by one character": sorted(filter(_admissible_target, exts)),
+            "case variant": sorted(filter(_admissible_target, case))}
+
+
+ADV_SPELLINGS = sorted(set(REVIEWED_SPECIALS)) + sorted(set(keywords) - set(REVIEWED_SPECIALS))
+ADV_DERIVED = {k: derived_targets(k) for k in ADV_SPELLINGS}
+
+
+def _adv_pool():
+    """name class -> (substring-derived targets, all derived targets), bare and with each g_/s_/t_/u_/e_ prefix."""
+    sub, full = {}, {}
+    for k in ADV_SPELLINGS:
+        for kind, vs in ADV_DERIVED[k].items():
+            for v in vs:
+                for w in [v] + [p + v for p in PREFIXES]:
+                    c = name_class(w)
+                    full.setdefault(c, set()).add(w)
+                    if kind == "substring":
+                        sub.setdefault(c, set()).add(w)
+    return {c: sorted(v) for c, v in sub.items()}, {c: sorted(v) for c, v in full.items()}
+
+
+ADV_SUB, ADV = _adv_pool()
+ADV_SET = set(x for v in ADV.values() for x in v)
+
+
+def adversarial_target(rnd, v):
+    """A derived spelling of v's class (substrings of the special spellings / keywords preferred), or None."""
+    cls = name_class(v)
+    pool = ADV_SUB.get(cls) if rnd.random() < 0.6 else None
+    pool = pool or ADV.get(cls)
+    return rnd.choice(pool) if pool else None
+
+
+def adversarial_single(rnd, names, guard, v):
+    """Renaming of the single name v to a derived spelling that keeps the map admissible, or None."""
+    used = set(names)
+    for _ in range(12):
+        c = adversarial_target(rnd, v)
+        if c is not None and c != v and c not in used and pair_ok(v, c, guard):
+            m = {n: n for n in names}
+            m[v] = c
+            return m
+    return None
+
+
+ADV_ROLES = ("global not named g_*", "g_* global", "local variable", "parameter", "function name", "struct tag",
+             "typedef name", "macro name")
+_ROLE_PREFIX = {"g_* global": "g_", "struct tag": "s_", "typedef name": "t_"}
+_HOST_NAMES = {"g_* global": "g_zzqg", "local variable": "zzql", "parameter": "zzqp", "function name": "zzqf",
+               "struct tag": "s_zzqs", "typedef name": "t_zzqt", "macro name": "ZZQM"}
+
+
+def placeholder(t):
+    """A neutral spelling of t's name class (same length, capitals at the same places, same prefix class)."""
+    for low in ("qkzvxj", "vxjqkz", "jzqxvk"):
+        keep = 2 if t[:2] in PREFIXES else 0
+        out = t[:keep]
+        for i, c in enumerate(t[keep:]):
+            out += low[i % 6] if c in LOWER else low[i % 6].upper() if c in UPPER else "7" if c.isdigit() else c
+        if out != t and _admissible_target(out) and name_class(out) == name_class(t):
+            return out
+    return None
+
+
+def adversarial_host(role, t):
+    """-> (file name, source, old name, new name) or None.  A small program in which exactly one identifier of the
+    given role carries a neutral spelling `old` of the class of the derived target; the case renames it to `new`.
+    The host is conforming for the roles with a conforming spelling; the `global not named g_*` role, capitals in a
+    variable name and a lower-case macro name make it a violating program."""
+    pre = _ROLE_PREFIX.get(role, "")
+    ph = placeholder(t)
+    if ph is None:
+        return None
+    old, new = pre + ph, pre + t
+    n = dict(_HOST_NAMES)
+    if role != "global not named g_*":
+        n[role] = old
+    if role in ("struct tag", "typedef name"):
+        name = "adv.h"
+        src = (family.HDR + "\n#ifndef ADV_H\n# define ADV_H\n\ntypedef struct %s\n{\n\tint\t\ta;\n}\t%s;\n\n#endif\n"
+               % (n["struct tag"], n["typedef name"]))
+    else:
+        name = "adv.c"
+        bad = role == "global not named g_*"
+        src = (family.HDR + "\n#define %s 1\n\nint\t%s;\n%s\nint\t%s(int %s)\n{\n\tint\t%s;\n\n\t%s = %s + %s + %s%s;\n"
+               "\treturn (%s);\n}\n"
+               % (n["macro name"], n["g_* global"], "int\t%s;\n" % old if bad else "", n["function name"], n["parameter"],
+                  n["local variable"], n["local variable"], n["parameter"], n["g_* global"], n["macro name"],
+                  " + " + old if bad else "", n["local variable"]))
+    return name, src, old, new
+
+
+def adversarial_cases(rnd, tier):
+    """-> [(role, kind, spelling it derives from, target)].  Quick: every substring of every reviewed special
+    spelling in every role, and a sample of the other derived spellings; thorough: every substring of every
+    spelling (keywords too) and a larger sample of the case variants and one-character extensions."""
+    quick = tier == "quick"
+    out = []
+    seen = set()
+    for k in ADV_SPELLINGS:
+        d = ADV_DERIVED[k]
+        for role in ADV_ROLES:
+            for kind in ADV_KINDS:
+                vs = [v for v in d[kind] if (role, v) not in seen]      # `e` is a substring of many spellings: once per role
+                if kind == "substring":
+                    lim = None if (not quick or k in REVIEWED_SPECIALS) else 2
+                elif kind == "case variant":
+                    lim = 2 if quick else 24
+                else:
+                    lim = 2 if quick else 12
+                if lim is not None and len(vs) > lim:
+                    vs = rnd.sample(vs, lim)
+                seen.update((role, v) for v in vs)
+                out += [(role, kind, k, v) for v in vs]
+    return out
+
+
 def _same_class_random(rnd, v):
     keep = 2 if v[:2] in PREFIXES else 0
     out = list(v[:keep])
@@ -139,10 +291,14 @@ def _permute_letters(rnd, v):
 def candidate(rnd, v, stats=None):
     k = rnd.random()
     cls = name_class(v)
-    if k < 0.45 and cls in NEAR:
+    if k < 0.25 and cls in NEAR:
         if stats is not None:
             stats["near"] = stats.get("near", 0) + 1
         return rnd.choice(NEAR[cls])
+    if 0.25 <= k < 0.45 and cls in ADV:
+        if stats is not None:
+            stats["derived"] = stats.get("derived", 0) + 1
+        return adversarial_target(rnd, v)
     if k < 0.60:
         return _digit_underscore_variant(rnd, v)
     if k < 0.68:
